@@ -358,6 +358,19 @@ def check_program(case: dict[str, Any], col: common.Collector) -> None:
                 col.violation("C16:output-shape", f"{name}: kernel {got.shape} vs NumPy "
                               f"{want.shape} at {val}", {**wit0, "valuation": val})
             elif not compare.close_ulps(got, want, 16.0, err=8.0 * spread[name]):
+                # is the deviation specific to the SYMBOLIC kernel?  The same program with
+                # these sizes written as integers is C01's business.
+                try:
+                    bc = ps.PtBuild(conc)
+                    bpc = ctarget.generate(pt.transform.deduplicate(
+                        pt.make_dict_of_named_arrays(bc.outputs())))
+                    rc = ctarget.run(ctarget.compile_program(bpc), bpc, bc.env(0))
+                    gc = rc.outputs[name]
+                    if gc.shape == got.shape and compare.close_ulps(got, gc, 4.0):
+                        col.histo("deviation_shared_with_static_kernel", name[:3])
+                        continue
+                except Exception:  # noqa: BLE001
+                    pass
                 col.violation("C16:value", f"output {name} differs from NumPy at sizes {val} "
                               "(same compiled kernel)",
                               {**wit0, "valuation": val,
